@@ -100,6 +100,14 @@ Run ==
                           IF codes = {} THEN IsModule(p, m) ELSE (Slot(p, m) = "error" /\ SeqToSet(p.mods[m].diag) = codes),
                           "F19", f19, [shape |-> expect.shape, slot |-> Slot(p, m), diag |-> IF Slot(p, m) = "error" THEN p.mods[m].diag ELSE <<>>])
             ELSE TRUE)
+        \* ---- spec -> impl: the parameter list Transform.tla predicts (optional / default-parameter normalisation)
+        /\ (IF "sig" \in DOMAIN expect /\ IsModule(Rec[l].proj, "shape/mod.ts")
+            THEN LET pm == Rec[l].proj.mods["shape/mod.ts"]
+                     obs == IF "sig" \in DOMAIN pm THEN pm.sig ELSE <<>>
+                 IN Check("C11", "signature-carried-over-with-default-parameter-normalisation",
+                          Len(obs) = Len(expect.sig) /\ \A i \in DOMAIN obs : obs[i].form = expect.sig[i].form /\ obs[i].o = expect.sig[i].o /\ obs[i].t = expect.sig[i].t,
+                          "-", FALSE, [shape |-> expect.shape, observed |-> obs, expected |-> expect.sig])
+            ELSE TRUE)
         /\ bases' = Append(bases, p)
   /\ l' = l + 1 /\ UNCHANGED expect
 Next == l <= Len(Rec) /\ (World \/ Edit \/ Run)
